@@ -36,6 +36,10 @@ def ref_cal(cal, x):
     if cal["t"] == "poly":
         total, mag = Fraction(0), Fraction(0)
         for c, e in cal["terms"]:
+            if e and abs(q) ** e > Fraction(10) ** 300:
+                # the power alone leaves the float range (whatever the coefficient, even 0): an overflow error, inf or
+                # NaN are all what double arithmetic gives here - not judged
+                raise RefUndefined("power beyond the float range")
             t = Fraction(c) * q ** e
             total += t
             mag += abs(t) + abs(Fraction(c) * (q ** e - qf ** e)) * 10 ** 9
